@@ -391,21 +391,8 @@ def check(chk):
     _delay_api(chk, repo)
 
     # -------------------------------------------------------------- DOM-26
-    f = repo.func("mpf/core/mode.py", "Mode.stop")
-    chk.analysed(f)
-    cfg = f.cfg()
-    mark = [n for n in cfg.nodes_where(lambda n: n.kind == "stmt" and isinstance(n.ast, ast.Assign) and
-                                       src(n.ast.targets[0]) == "self.stopping" and src(n.ast.value) == "True")]
-    clr = [n.id for n, c in cfg.calls_named("clear") if src(c.func.value) == "self.delay"]
-    if not mark:
-        # the stop protocol itself is C07's subject; here only: whatever path gets past the guards clears the delays
-        mark = [cfg.entry]
-    w = cfg.must_pass(mark[0].id, clr) if not any(cfg.dominates(c, mark[0].id) for c in clr) else None
-    chk.ob("DOM-26", "an accepted Mode.stop clears the mode's delays", bool(clr) and w is None, f.where(),
-           path=cfg.fmt_path(w, "mpf/core/mode.py") if w else None, construct=f.ident, text="mode stop clears delays")
-    init = repo.func("mpf/core/mode.py", "Mode.__init__")
-    ok = any(isinstance(n, ast.Assign) and src(n.targets[0]) == "self.delay" and "DelayManager" in src(n.value) for n in walk_local(init.node))
-    chk.ob("DOM-26", "each mode owns its DelayManager", ok, init.where(), construct=init.ident, text="mode delay manager")
+    from sa.helpers import mode_stop_clears_delays
+    mode_stop_clears_delays(chk, "DOM-26")
     from sa.helpers import mode_delays_own
     mode_delays_own(chk, "DOM-26")
 
